@@ -14,6 +14,8 @@
  *                      short write, no error)
  *        ",sticky": every later write to that path fails the same way (errno mode).
  *   IOMON_TRUNC_FAULT=<widx>,<mode>,<arg>   same for ftruncate (errno|exit_before|exit_after)
+ *   IOMON_NS_FAULT=<widx>,<op>,<errno>[,<nth>]  fail the nth (default 1st) unlink / open of
+ *                               watched path widx with errno (op = unlink|open)
  *   IOMON_DELAY=<widx>,<seed>,<max_us>,<ops>[;...]  sleep before ops on path widx;
  *        ops is a string of: w (writes) r (reads) o (open) c (copy_file_range/sendfile source)
  *   IOMON_LOGREADS=1            also log reads on watched paths
@@ -60,6 +62,7 @@ static int f_widx = -1; static uint64_t f_k = 0; static int f_mode = 0; static l
 static volatile int f_fired = 0;
 enum { M_ERRNO = 1, M_TORN = 2, M_EXIT_BEFORE = 3, M_EXIT_AFTER = 4, M_SHORT = 5 };
 static int t_widx = -1; static int t_mode = 0; static long t_arg = 0;
+static int n_widx = -1; static int n_op = 0; static int n_errno = 0; static int n_nth = 1; static int n_count = 0;
 
 static struct { int widx; uint64_t seed; uint64_t max_us; char ops[8]; } delays[MAXW];
 static int ndelays = 0;
@@ -152,6 +155,16 @@ static void do_init(void) {
         if ((t = strtok_r(NULL, ",", &save))) t_mode = mode_of(t);
         if ((t = strtok_r(NULL, ",", &save))) t_arg = atol(t);
         if (!t_mode) t_widx = -1;
+    }
+    const char *nf = getenv("IOMON_NS_FAULT");
+    if (nf) {
+        char buf[128]; strncpy(buf, nf, sizeof buf - 1); buf[sizeof buf - 1] = 0;
+        char *save = NULL; char *t;
+        if ((t = strtok_r(buf, ",", &save))) n_widx = atoi(t);
+        if ((t = strtok_r(NULL, ",", &save))) n_op = !strcmp(t, "unlink") ? 'u' : !strcmp(t, "open") ? 'o' : 0;
+        if ((t = strtok_r(NULL, ",", &save))) n_errno = atoi(t);
+        if ((t = strtok_r(NULL, ",", &save))) n_nth = atoi(t);
+        if (!n_op || !n_errno) n_widx = -1;
     }
     const char *d = getenv("IOMON_DELAY");
     if (d) {
@@ -408,11 +421,22 @@ int truncate64(const char *path, off64_t len) {
 }
 int truncate(const char *path, off_t len) { return truncate64(path, len); }
 
+/* 1 if this namespace operation on watched path widx is the one to fail. */
+static int ns_fault(int widx, int op) {
+    if (widx < 0 || widx != n_widx || op != n_op) return 0;
+    return __sync_add_and_fetch(&n_count, 1) == n_nth;
+}
+
 static int open_common(int dirfd, const char *path, int flags, mode_t mode, int at) {
     init();
     int widx = abs_path_widx(dirfd, path);
     uint64_t seq0 = next_seq();
     if (widx >= 0) maybe_delay(widx, 'o');
+    if (ns_fault(widx, 'o')) {
+        log_rec(K_FAULT, seq0, -1, widx, 0, 0, -1, n_errno, 200 + 'o', path, (uint32_t)strlen(path));
+        errno = n_errno;
+        return -1;
+    }
     int ret = at ? real_openat64(dirfd, path, flags, mode) : real_open64(path, flags, mode);
     int err = ret < 0 ? errno : 0;
     if (widx >= 0 || (flags & (O_WRONLY | O_RDWR | O_CREAT | O_TRUNC | O_APPEND)))
@@ -448,6 +472,11 @@ int unlink(const char *path) {
     init();
     int widx = abs_path_widx(AT_FDCWD, path);
     uint64_t seq0 = next_seq();
+    if (ns_fault(widx, 'u')) {
+        log_rec(K_FAULT, seq0, -1, widx, 0, 0, -1, n_errno, 200 + 'u', path, (uint32_t)strlen(path));
+        errno = n_errno;
+        return -1;
+    }
     int ret = real_unlink(path);
     int err = ret < 0 ? errno : 0;
     log_rec(K_UNLINK, seq0, -1, widx, 0, 0, ret, err, 0, path, (uint32_t)strlen(path));
@@ -458,6 +487,11 @@ int unlinkat(int dirfd, const char *path, int flags) {
     init();
     int widx = abs_path_widx(dirfd, path);
     uint64_t seq0 = next_seq();
+    if (ns_fault(widx, 'u')) {
+        log_rec(K_FAULT, seq0, -1, widx, 0, 0, -1, n_errno, 200 + 'u', path, (uint32_t)strlen(path));
+        errno = n_errno;
+        return -1;
+    }
     int ret = real_unlinkat(dirfd, path, flags);
     int err = ret < 0 ? errno : 0;
     log_rec(K_UNLINK, seq0, -1, widx, 0, 0, ret, err, flags, path, (uint32_t)strlen(path));
